@@ -134,3 +134,36 @@ func decodeLen(i int64, lo int, offs []int64) (n int, rest int64) {
 	}
 	return lo + k, i - offs[k]
 }
+
+// deepSame compares two observed values structurally through the public API: scalars by
+// dynamic type and value with floats by bit pattern (so NaN equals itself), lists
+// position by position, objects key by key.
+func deepSame(a, b interface{}) bool {
+	switch x := a.(type) {
+	case at.List:
+		y, ok := b.(at.List)
+		if !ok || x.Count() != y.Count() {
+			return false
+		}
+		for i := 0; i < x.Count(); i++ {
+			if !deepSame(x.Get(i), y.Get(i)) {
+				return false
+			}
+		}
+		return true
+	case at.Object:
+		y, ok := b.(at.Object)
+		if !ok || x.Count() != y.Count() {
+			return false
+		}
+		same := true
+		x.ForEach(func(k string, v interface{}) {
+			if !y.KeyExists(k) || !deepSame(v, y.Get(k)) {
+				same = false
+			}
+		})
+		return same
+	default:
+		return sameVal(a, b)
+	}
+}
